@@ -182,6 +182,31 @@ func (g *gen) value(depth int) *jv.V {
 
 func (g *gen) key() string { return rapid.SampledFrom(g.o.keys()).Draw(g.t, "key") }
 
+// keyIn draws a property name for a map keyword of schema object s: half of the time one that
+// another keyword of s already talks about (properties, dependentRequired, dependentSchemas,
+// dependencies, required), so that several keywords meet on one name.
+func (g *gen) keyIn(s *jv.V) string {
+	var names []string
+	for _, kw := range []string{"properties", "dependentRequired", "dependentSchemas", "dependencies"} {
+		if m := s.Get(kw); m != nil && m.K == jv.Obj {
+			for _, e := range m.O {
+				names = append(names, e.K)
+			}
+		}
+	}
+	if r := s.Get("required"); r != nil && r.K == jv.Arr {
+		for _, e := range r.A {
+			if e.K == jv.Str {
+				names = append(names, e.S)
+			}
+		}
+	}
+	if len(names) > 0 && g.coin(2, "sharedname") {
+		return names[g.intn(len(names), "sharednameidx")]
+	}
+	return g.key()
+}
+
 // refTarget picks a reference string allowed at this position, or "".
 func (g *gen) refTarget(descended bool) string {
 	if g.o.NoRefs {
@@ -315,7 +340,7 @@ func init() {
 		"dependentRequired": func(g *gen, s *jv.V, _ int, _ bool) {
 			o := obj()
 			for i, n := 0, 1+g.intn(2, "ndr"); i < n; i++ {
-				o.Set(g.key(), g.strList(0, 2))
+				o.Set(g.keyIn(s), g.strList(0, 2))
 			}
 			s.Set("dependentRequired", o)
 		},
@@ -335,7 +360,7 @@ func init() {
 		"dependentSchemas": func(g *gen, s *jv.V, d int, desc bool) {
 			o := obj()
 			for i, n := 0, 1+g.intn(2, "nds"); i < n; i++ {
-				o.Set(g.key(), g.schema(d-1, desc, false))
+				o.Set(g.keyIn(s), g.schema(d-1, desc, false))
 			}
 			s.Set("dependentSchemas", o)
 		},
@@ -346,7 +371,7 @@ func init() {
 		"properties": func(g *gen, s *jv.V, d int, _ bool) {
 			o := obj()
 			for i, n := 0, g.intn(4, "nprops"); i < n; i++ {
-				o.Set(g.key(), g.schema(d-1, true, false))
+				o.Set(g.keyIn(s), g.schema(d-1, true, false))
 			}
 			s.Set("properties", o)
 		},
@@ -392,9 +417,9 @@ func init() {
 			o := obj()
 			for i, n := 0, 1+g.intn(3, "ndep"); i < n; i++ {
 				if g.coin(2, "depstr") {
-					o.Set(g.key(), g.strList(0, 2))
+					o.Set(g.keyIn(s), g.strList(0, 2))
 				} else {
-					o.Set(g.key(), g.schema(d-1, desc, false))
+					o.Set(g.keyIn(s), g.schema(d-1, desc, false))
 				}
 			}
 			s.Set("dependencies", o)
